@@ -111,7 +111,9 @@ def corrupt(rnd, cmd, props, names, inflight, owner_mode):
             n = rnd.choice(names)
             props['name'] = rnd.choice([n, n.upper(), n.capitalize()])
         elif op == 'wrong_uid':
-            props.setdefault('options', {})['uid'] = rnd.choice(['nobody', 12345, 'daemon'])
+            if not isinstance(props.get('options'), dict):
+                props['options'] = {}
+            props['options']['uid'] = rnd.choice(['nobody', 12345, 'daemon'])
         elif op == 'conflict':
             pass
         elif op == 'bad_get_key':
